@@ -114,6 +114,8 @@ def _ti_lt(ctx: Ctx, c: Collector) -> None:
             items.append((f"ret:{T.show(e.term)}", e.guards))
         elif e.kind == "assert" and e.term[1] == T.const(False):
             items.append(("abort", e.guards))
+        elif e.kind == "assert":
+            items.append(("abort", e.guards + (("g", e.term[1], False),)))
         elif e.kind == "raise":
             items.append(("abort", e.guards))
     pr: List[str] = []
